@@ -433,7 +433,10 @@ def stage_structural_sweep(ctx: Ctx):
 PAR_PROGS = ['yy: int = cc\n(zz): int\nq.r: int = 1\n', 'a = b, c\nfor i, j in k: pass\nx[i, j] = y\n', 'f(a, *b, k=c, **d)\nclass K(A, *B, m=M): pass\n', 'x = a + b * -c if d else [e, f][0]\n',
              'with a as b, (c, d) as e: pass\n', 'match s:\n    case a | b, [c, *d], {1: e}, K(f, g=h) as i: pass\n', 'x = lambda a, b=1: (yield)\nawait_ = [i for i in j if k]\n',
              "x = f'{a!r:>{w}} {b}'\ny = 'a' 'b'\n", 'del a, (b), c.d\nreturn_ = not a\nassert a, b\n', 'x = a if b else c\ny = (a, b)\nz = a[b:c, d]\n', 'import a\nx = (yield a)\ntype T[U: int] = V\n',
-             'é = ü + "ö" * z\n(é): ü = 1\n']
+             'é = ü + "ö" * z\n(é): ü = 1\n',
+             # parentheses glued to keywords / names on either side (removing them must leave a blank), several layers, line breaks inside
+             'for a,(b)in c: pass\nfor d,((e))in f: pass\nfor g,(h\n )in i: pass\n', 'def f():\n    return(a)if b else c\ndef g():\n    return((a))if(b)else(c)\n', 'x = (a)and(b)or(c)\ny = p if(q)and(r.s)else t\n',
+             'x = [i for i in(j)if(k)]\ny = not(a)\nz = a if(b\n)else c\n', 'x = lambda:(a)if(b)else(c)\nwith(a)as b: pass\nassert(a),(b)\n', 'x = 1 if(a)else 2\ny = a is(b)\nz = a in(b)or(c)not in(d)\n']
 
 
 def stage_par_unpar(ctx: Ctx):
@@ -472,7 +475,9 @@ def stage_par_unpar(ctx: Ctx):
                         # documented: unpar() does no parsability validation - removing parentheses that are needed is the caller's business; what is checked is that a removal
                         # which keeps the structure leaves positions and derived fields right
                         ds = reparse_diffs(root, positions=False)
-                        if ds and not all('simple' in x for x in ds):
+                        atom = isinstance(node.a, (ast.Name, ast.Constant, ast.Attribute, ast.Subscript, ast.Call, ast.List, ast.Dict, ast.Set, ast.ListComp, ast.SetComp, ast.DictComp)) and \
+                            not (isinstance(node.a, ast.Constant) and isinstance(node.a.value, (str, bytes)) and '\n' in node.src)
+                        if ds and not all('simple' in x for x in ds) and not (atom and op == 'unpar'):      # grouping parentheses around an atom are never needed
                             ctx.tick(None, 'par:unpar-of-needed-parentheses')
                             break
                     if d:
